@@ -31,9 +31,10 @@ let c18_rw args impl =
     let has_race = List.exists (fun e -> e.[0] = 'x') evs in
     let mk pick = List.map (fun e ->
         match e.[0] with
-        | 't' -> ETick (e.[1] = '1')
-        | 's' -> EShutdown (e.[1] = '1')
-        | _ -> ERaceShutdown (e.[1] = '1', pick, e.[2] = '1')) evs in
+        (* digit 0 = Refresh returns nil, 1..4 = one of the harness's error values *)
+        | 't' -> ETick (e.[1] <> '0')
+        | 's' -> EShutdown (e.[1] <> '0')
+        | _ -> ERaceShutdown (e.[1] <> '0', pick, e.[2] <> '0')) evs in
     let render pick = String.concat " " (List.map show_act (rw_run ros durs (mk pick))) ^ " cancelled=1" in
     let cands = if has_race then [render false; render true] else [render false] in
     if List.mem impl cands then "OK" else "model admits: " ^ String.concat " | " cands
